@@ -305,7 +305,7 @@ func cmdCheck(args []string) {
 		for _, g := range withGaps {
 			listed := false
 			for _, k := range known {
-				if k.Kind == "known" && k.Property == id && k.Gap == g {
+				if k.Kind == "known" && k.Gap == g { // a gap is listed once, under the property it belongs to; it is reported wherever the function is checked
 					listed = true
 					if len(failing) > 0 && !usedGaps[g] {
 						usedGaps[g] = true
